@@ -531,7 +531,21 @@ func c15Parallelize(c *Ctx) {
 		}
 	}
 	// copyPaths returns Parallelize's error
-	if cp := p.Func("private/pkg/storage", "copyPaths"); cp != nil {
+	// (found by what it does: the function of package storage that hands its copy jobs to thread.Parallelize)
+	var cp *FuncRef
+	if pkS := p.Pkg("private/pkg/storage"); pkS != nil {
+		for _, fr := range p.FuncsOf(pkS) {
+			if fr.Obj == nil || fr.Decl.Body == nil {
+				continue
+			}
+			for _, call := range callsIn(p.SSAFunc(fr.Obj)) {
+				if fn := staticCalleeObj(call.Call); fn != nil && calleeIs(fn, "private/pkg/thread", "Parallelize") {
+					cp = fr
+				}
+			}
+		}
+	}
+	if cp != nil {
 		sf := p.SSAFunc(cp.Obj)
 		okRet := false
 		for _, call := range callsIn(sf) {
@@ -605,6 +619,18 @@ func c15AtomicWriter(c *Ctx) {
 			loads = append(loads, call)
 		}
 	}
+	// calls that remove the temp file: os.Remove itself, or a helper of the package that calls it
+	removeLike := append([]ssaCall{}, removes...)
+	for _, call := range callsIn(closeFn) {
+		if h := call.Call.StaticCallee(); h != nil && h.Pkg == closeFn.Pkg && h != closeFn && len(h.Blocks) > 0 {
+			for _, hc := range callsIn(h) {
+				if isCall(hc.Call, "os", "", "Remove") {
+					removeLike = append(removeLike, call)
+					break
+				}
+			}
+		}
+	}
 	isFileClose := func(cc *ssa.CallCommon) bool { return isCall(cc, "os", "File", "Close") }
 	isErrLoad := func(cc *ssa.CallCommon) bool {
 		fn := staticCalleeObj(cc)
@@ -649,7 +675,7 @@ func c15AtomicWriter(c *Ctx) {
 			if !ok || rn.Value == nil || !dependsOnValue(x, rn.Value) {
 				continue
 			}
-			for _, rm := range removes {
+			for _, rm := range removeLike {
 				if edgeDominates(blk, trueIsNonNil, rm.Instr.Block()) {
 					okRm = true
 				}
@@ -671,7 +697,7 @@ func c15AtomicWriter(c *Ctx) {
 		if !ok || !dependsOnCallUp(p, x, isFileClose, 2) || !dependsOnCallUp(p, x, isErrLoad, 2) {
 			continue
 		}
-		for _, rm := range removes {
+		for _, rm := range removeLike {
 			if edgeDominates(blk, trueIsNonNil, rm.Instr.Block()) {
 				// and that block returns
 				okFailRm = true
